@@ -201,6 +201,64 @@ impl Ctx {
     }
 }
 
+/// Lazily rendered inputs of a check (only evaluated when a witness line is printed).
+pub type Inputs<'a> = &'a dyn Fn() -> Vec<(&'static str, String)>;
+
+/// Out-of-line bodies of the check macros: the macros expand at thousands of call sites, so they
+/// only evaluate their arguments and delegate here (keeps compile time and binary size down).
+impl Ctx {
+    #[inline(never)]
+    pub fn check_val<T: PartialEq + crate::show::Show>(&mut self, got: Result<T, String>, exp: T, inputs: Inputs) -> bool {
+        self.checks += 1;
+        match got {
+            Ok(g) if g == exp => true,
+            Ok(g) => {
+                if !self.panic_only {
+                    self.report(&inputs(), Some(g.show()), exp.show(), None);
+                }
+                self.panic_only
+            }
+            Err(p) => {
+                self.report(&inputs(), None, exp.show(), Some(p));
+                false
+            }
+        }
+    }
+
+    #[inline(never)]
+    pub fn no_panic_val(&mut self, err: Option<&String>, inputs: Inputs) -> bool {
+        self.checks += 1;
+        match err {
+            None => true,
+            Some(p) => {
+                self.report(&inputs(), None, "no panic".to_string(), Some(p.clone()));
+                false
+            }
+        }
+    }
+
+    #[inline(never)]
+    pub fn must_panic_val(&mut self, returned: Option<&dyn crate::show::Show>, inputs: Inputs) -> bool {
+        self.checks += 1;
+        match returned {
+            None => true,
+            Some(g) => {
+                self.report(&inputs(), Some(g.show()), "panic (documented)".to_string(), None);
+                false
+            }
+        }
+    }
+
+    #[inline(never)]
+    pub fn holds_val(&mut self, ok: bool, what: &dyn std::fmt::Display, inputs: Inputs) -> bool {
+        self.checks += 1;
+        if !ok && !self.panic_only {
+            self.report(&inputs(), Some("false".to_string()), format!("{}", what), None);
+        }
+        ok || self.panic_only
+    }
+}
+
 /// `check!(ctx, got, expected; a, b, c)`:
 /// `got: Result<T, String>` (from [`call`]), `expected: T`; the identifiers after `;` are the
 /// inputs (anything implementing `Show`) recorded in the witness line. Returns `true` if ok.
@@ -209,30 +267,7 @@ macro_rules! check {
     ($c:expr, $got:expr, $exp:expr; $($name:ident),* $(,)?) => {{
         let got__ = $got;
         let exp__ = $exp;
-        $c.checks += 1;
-        match &got__ {
-            Ok(g) if *g == exp__ => true,
-            Ok(g) => {
-                if !$c.panic_only {
-                    $c.report(
-                        &[$((stringify!($name), $crate::show::Show::show(&$name))),*],
-                        Some($crate::show::Show::show(g)),
-                        $crate::show::Show::show(&exp__),
-                        None,
-                    );
-                }
-                $c.panic_only
-            }
-            Err(p) => {
-                $c.report(
-                    &[$((stringify!($name), $crate::show::Show::show(&$name))),*],
-                    None,
-                    $crate::show::Show::show(&exp__),
-                    Some(p.clone()),
-                );
-                false
-            }
-        }
+        $c.check_val(got__, exp__, &|| vec![$((stringify!($name), $crate::show::Show::show(&$name))),*])
     }};
 }
 
@@ -241,19 +276,7 @@ macro_rules! check {
 macro_rules! no_panic {
     ($c:expr, $got:expr; $($name:ident),* $(,)?) => {{
         let got__ = $got;
-        $c.checks += 1;
-        match &got__ {
-            Ok(_) => true,
-            Err(p) => {
-                $c.report(
-                    &[$((stringify!($name), $crate::show::Show::show(&$name))),*],
-                    None,
-                    "no panic".to_string(),
-                    Some(p.clone()),
-                );
-                false
-            }
-        }
+        $c.no_panic_val(got__.as_ref().err(), &|| vec![$((stringify!($name), $crate::show::Show::show(&$name))),*])
     }};
 }
 
@@ -262,19 +285,7 @@ macro_rules! no_panic {
 macro_rules! must_panic {
     ($c:expr, $got:expr; $($name:ident),* $(,)?) => {{
         let got__ = $got;
-        $c.checks += 1;
-        match &got__ {
-            Err(_) => true,
-            Ok(g) => {
-                $c.report(
-                    &[$((stringify!($name), $crate::show::Show::show(&$name))),*],
-                    Some($crate::show::Show::show(g)),
-                    "panic (documented)".to_string(),
-                    None,
-                );
-                false
-            }
-        }
+        $c.must_panic_val(got__.as_ref().ok().map(|g| g as &dyn $crate::show::Show), &|| vec![$((stringify!($name), $crate::show::Show::show(&$name))),*])
     }};
 }
 
@@ -283,16 +294,7 @@ macro_rules! must_panic {
 macro_rules! holds {
     ($c:expr, $cond:expr, $what:expr; $($name:ident),* $(,)?) => {{
         let ok__: bool = $cond;
-        $c.checks += 1;
-        if !ok__ && !$c.panic_only {
-            $c.report(
-                &[$((stringify!($name), $crate::show::Show::show(&$name))),*],
-                Some("false".to_string()),
-                format!("{}", $what),
-                None,
-            );
-        }
-        let r__: bool = ok__ || $c.panic_only;
+        let r__: bool = $c.holds_val(ok__, &$what, &|| vec![$((stringify!($name), $crate::show::Show::show(&$name))),*]);
         r__
     }};
 }
